@@ -369,8 +369,10 @@ Definition proc_ctx (ps : list procdef) (assumed : list name) (p : procdef) : ct
    other deadlocks).  Process i depends on process j when a free name of i's body is a provider name
    of j.  Stated with the iteration the checker runs (repeatedly mark the processes all of whose
    dependencies are marked; acyclic iff everything gets marked): deps_acyclic.  Its declarative
-   reading is DepsRanked below: the processes can be ranked so that every process only uses
-   processes of smaller rank (equivalence: proofs/Acyclic.v). *)
+   reading is ProcsGrounded below: the "uses" relation among the process declarations is well founded
+   — every process is Grounded, i.e. all the processes it uses are (inductively) Grounded.  The
+   equivalence deps_acyclic ps = true <-> ProcsGrounded ps (for distinct provider names) is
+   proofs/Acyclic.v (procs_grounded_iff). *)
 Definition provider_index (ps : list procdef) (x : string) : option nat :=
   (fix go (l : list procdef) (i : nat) (acc : option nat) : option nat :=
      match l with
@@ -390,8 +392,11 @@ Fixpoint mark_rounds (fuel : nat) (deps : list (list nat)) (done : list nat) : l
 Definition deps_acyclic (ps : list procdef) : bool :=
   (length (mark_rounds (length ps) (map (proc_deps ps) ps) []) =? length ps)%nat.
 
-Definition DepsRanked (ps : list procdef) : Prop :=
-  exists rank : nat -> nat, forall i p, nth_error ps i = Some p -> forall j, In j (proc_deps ps p) -> rank j < rank i.
+Inductive Grounded (ps : list procdef) : procdef -> Prop :=
+| grounded p :
+    (forall fn q, In fn (proc_uses p) -> In q ps -> In (ident fn) (map ident (pr_providers q)) -> Grounded ps q) ->
+    Grounded ps p.
+Definition ProcsGrounded (ps : list procdef) : Prop := forall p, In p ps -> Grounded ps p.
 
 Section Program.
 Variable teq : tenv -> sty -> sty -> Prop.
